@@ -22,6 +22,7 @@ import BSVerif.Props.C10
 import BSVerif.Props.C11
 import BSVerif.Props.C13
 import BSVerif.Props.C16
+import BSVerif.Props.C08
 
 namespace BSVerif.Props.C01
 open BSVerif.Scope
